@@ -300,6 +300,75 @@ Definition pol_demote (p : policy) : policy :=
   let '(p1, pws) := demote_loop 1000 p (pwsize p) in
   with_sizes p1 (wsize p1) (wwsize p1) pws.
 
-(* p.climb with adjustment 0 (the hill climber's amount is |stepSize| < 1 for maxima below 16;
-   larger maxima are exercised without the model, see DESIGN) *)
+(* p.climb with adjustment 0 (the hill climber's amount is |stepSize| < 1 for maxima below 16) *)
 Definition pol_climb (p : policy) : policy := pol_demote p.
+
+(* ---- the hill climber's transfers.  The amount (p.adjustment after determineAdjustment: floating-point
+   arithmetic on the sampled hit rates) is an INPUT; what the policy does with it is modelled. *)
+
+(* unlink a node from the deque its queueType names, retag it, push it at the back of deque q2 *)
+Definition move_to (p : policy) (id q2 : Z) : policy :=
+  let nd := node_of p id in
+  let pm := set_queue p (pqueue nd) (dq_delete (queue_of p (pqueue nd)) id) in
+  let pr := set_queue_of pm id q2 in
+  set_queue pr q2 (dq_push_back (queue_of pr q2) id).
+
+(* increaseWindow's loop: candidates from the head of probation, else (none, or heavier than the quota)
+   from the head of protected; returns the quota left *)
+Fixpoint increase_loop (fuel : nat) (p : policy) (quota : Z) : policy * Z :=
+  match fuel with
+  | O => (p, quota)
+  | S f =>
+      let '(cand, isprob) :=
+        match dq_head (qprob p) with
+        | Some c => if quota <? pweight (node_of p c) then (dq_head (qprot p), false) else (Some c, true)
+        | None => (dq_head (qprot p), false)
+        end in
+      match cand with
+      | None => (p, quota)
+      | Some c =>
+          let w := pweight (node_of p c) in
+          if quota <? w then (p, quota) else
+          let p1 := move_to p c QWINDOW in
+          let p2 := with_sizes p1 (wsize p1) (wrapu (wwsize p1 + w)) (if isprob then pwsize p1 else wrapu (pwsize p1 - w)) in
+          increase_loop f p2 (quota - w)
+      end
+  end.
+
+Definition pol_increase_window (adj : Z) (p : policy) : policy * Z :=
+  if pmax p =? 0 then (p, adj) else
+  let quota0 := if pmax p <? adj then pmax p else adj in
+  let p1 := with_maxima p (maxi p) (wrapu (wmax p + quota0)) (wrapu (pmax p - quota0)) in
+  let p2 := pol_demote p1 in
+  let '(p3, quota) := increase_loop 1000 p2 quota0 in
+  (with_maxima p3 (maxi p3) (wrapu (wmax p3 - quota)) (wrapu (pmax p3 + quota)), quota).
+
+(* decreaseWindow's loop: candidates from the head of the window go to the back of probation *)
+Fixpoint decrease_loop (fuel : nat) (p : policy) (quota : Z) : policy * Z :=
+  match fuel with
+  | O => (p, quota)
+  | S f =>
+      match dq_head (qwin p) with
+      | None => (p, quota)
+      | Some c =>
+          let w := pweight (node_of p c) in
+          if quota <? w then (p, quota) else
+          let p1 := move_to p c QPROBATION in
+          let p2 := with_sizes p1 (wsize p1) (wrapu (wwsize p1 - w)) (pwsize p1) in
+          decrease_loop f p2 (quota - w)
+      end
+  end.
+
+Definition pol_decrease_window (adj : Z) (p : policy) : policy * Z :=
+  if wmax p <=? 1 then (p, adj) else
+  let quota0 := if wmax p - 1 <? - adj then wmax p - 1 else - adj in
+  let p1 := with_maxima p (maxi p) (wrapu (wmax p - quota0)) (wrapu (pmax p + quota0)) in
+  let '(p2, quota) := decrease_loop 1000 p1 quota0 in
+  (with_maxima p2 (maxi p2) (wrapu (wmax p2 + quota)) (wrapu (pmax p2 - quota)), - quota).
+
+(* p.climb once determineAdjustment has left [adj] in p.adjustment; returns what the transfer leaves there *)
+Definition pol_climb_adj (adj : Z) (p : policy) : policy * Z :=
+  let p0 := pol_demote p in
+  if adj =? 0 then (p0, 0)
+  else if adj >? 0 then pol_increase_window adj p0
+  else pol_decrease_window adj p0.
